@@ -509,3 +509,489 @@ Proof.
   end.
   unfold expect, finish, mk_token. cbn [c_pos]. rewrite app_length, Nat.add_assoc. reflexivity.
 Qed.
+
+(* ------------------------------------------------------------------ numbers *)
+
+Lemma scan_number_eq : forall v s start c k,
+  scan_number v s start c k =
+  let c1 := skip_while is_digit (c_rest c) (c_pos c) in
+  match c_rest c1 with
+  | h :: t =>
+      if (h =? 46)%Z then
+        let c2 := {| c_rest := t; c_pos := S (c_pos c1) |} in
+        if negb (is_digit (head_or_zero t)) then
+          let d := mk_diag EInvalidNumber 0 start (c_pos c2) in
+          let c3 := if v_skip_byte_after_bad_dot v then adv1 c2 else c2 in
+          match k c3 with
+          | Ok (t', c4, ds) => Ok (t_kind t', t_payload t', t_owned t', c4, d :: ds)
+          | LexPanic site p => LexPanic site p
+          | OutOfFuel => OutOfFuel
+          end
+        else scan_number_suffix s start (skip_while is_digit (c_rest c2) (c_pos c2))
+      else scan_number_suffix s start c1
+  | [] => scan_number_suffix s start c1
+  end.
+Proof.
+  intros v s start c k. unfold scan_number. cbv zeta.
+  destruct (c_rest (skip_while is_digit (c_rest c) (c_pos c))) as [|h t]; [reflexivity|].
+  destruct (Z.eqb_spec h 46) as [->|Hn]; [reflexivity|].
+  destruct h as [|q|q]; try reflexivity.
+  repeat (destruct q as [q|q|]; try reflexivity).
+  exfalso. apply Hn. reflexivity.
+Qed.
+
+Lemma digits_ok_inv : forall d, digits_ok d = true ->
+  exists b t, d = b :: t /\ is_digit b = true /\ forallb is_digit d = true.
+Proof. intros [|b t] H; cbn [digits_ok] in H; [discriminate|]. exists b, t. cbn [forallb] in *. bsplit. rewrite H, H0. auto. Qed.
+
+Lemma stops_word_digit : forall l, stops_word l -> match l with x :: _ => is_digit x = false | [] => True end.
+Proof. intros [|x l] H; [exact I|]. destruct H as [H _]. zb. Qed.
+
+Lemma stops_word_alpha : forall l, stops_word l -> is_alpha_us (head_or_zero l) = false.
+Proof. intros [|x l] H; [reflexivity|]. destruct H as [H _]. cbn [head_or_zero]. zb. Qed.
+
+Lemma scan_number_suffix_ok : forall pre num follow,
+  bhead (num ++ follow) -> stops_word follow ->
+  scan_number_suffix (pre ++ num ++ follow) (length pre) {| c_rest := follow; c_pos := length pre + length num |} =
+  Ok (TNumber, num, false, {| c_rest := follow; c_pos := length pre + length num |}, []).
+Proof.
+  intros pre num follow Hb Hf. unfold scan_number_suffix. cbn [c_rest c_pos].
+  rewrite stops_word_alpha by assumption.
+  rewrite slice_mid; [reflexivity|assumption|apply stops_word_bhead; assumption].
+Qed.
+
+Lemma nt_number : forall f v pre i fr follow,
+  tk_ok (KNumber i fr) = true -> stops_word follow ->
+  (fr = None -> match follow with b :: _ => (b =? 46)%Z = false | [] => True end) ->
+  next_token (S f) v (pre ++ number_text i fr ++ follow)
+    {| c_rest := number_text i fr ++ follow; c_pos := length pre |} =
+  expect TNumber (number_text i fr) false (length pre) (length (number_text i fr)) follow.
+Proof.
+  intros f v pre i fr follow Hok Hf Hdot. cbn [tk_ok] in Hok. bsplit.
+  destruct (digits_ok_inv _ H) as (b & t & Ei & Hb & Hall).
+  destruct (digit_dispatch _ Hb) as (H1 & H2 & H3 & H4 & H5).
+  assert (Hhead : exists rest, number_text i fr ++ follow = b :: rest).
+  { subst i. destruct fr; cbn [number_text app]; eauto. }
+  destruct Hhead as (rest & Hrest). rewrite Hrest at 2. rewrite nt_dispatch by assumption. cbv zeta.
+  rewrite H2, H3, H4, Hb. rewrite <- Hrest. rewrite scan_number_eq. cbv zeta. cbn [c_rest c_pos].
+  unfold expect, finish, mk_token.
+  destruct fr as [d|]; cbn [number_text].
+  - (* integer part, dot, fraction *)
+    destruct (digits_ok_inv _ H0) as (x & d' & Ed & Hx & Hdall).
+    rewrite <- app_assoc. rewrite skip_while_app; [|assumption| cbn [app]; reflexivity].
+    cbn [c_rest c_pos app]. change ((46 =? 46)%Z) with true. cbv iota.
+    replace (head_or_zero (d ++ follow)) with x by (subst d; reflexivity). rewrite Hx. cbn [negb].
+    rewrite skip_while_app; [|assumption| apply stops_word_digit; assumption].
+    replace (pre ++ i ++ 46%Z :: d ++ follow) with (pre ++ (i ++ 46%Z :: d) ++ follow)
+      by (rewrite <- app_assoc; reflexivity).
+    replace (S (length pre + length i) + length d) with (length pre + length (i ++ 46%Z :: d))
+      by (rewrite app_length; cbn [length]; lia).
+    rewrite scan_number_suffix_ok; [reflexivity| |assumption].
+    subst i. cbn [app bhead]. assumption.
+  - rewrite skip_while_app; [|assumption| apply stops_word_digit; assumption].
+    cbn [c_rest c_pos]. specialize (Hdot eq_refl).
+    assert (Hsuf : scan_number_suffix (pre ++ i ++ follow) (length pre) {| c_rest := follow; c_pos := length pre + length i |} =
+                   Ok (TNumber, i, false, {| c_rest := follow; c_pos := length pre + length i |}, [])).
+    { apply scan_number_suffix_ok; [|assumption]. subst i. cbn [app bhead]. assumption. }
+    destruct follow as [|h fl]; [rewrite Hsuf; reflexivity|]. rewrite Hdot. rewrite Hsuf. reflexivity.
+Qed.
+
+(* ------------------------------------------------------------------ strings *)
+
+Lemma forallb_imp : forall (A : Type) (p q : A -> bool) l,
+  (forall x, p x = true -> q x = true) -> forallb p l = true -> forallb q l = true.
+Proof.
+  intros A p q l Hpq; induction l as [|x l IH]; intro H; [reflexivity|].
+  cbn [forallb] in *. bsplit. rewrite (Hpq _ H), IH by assumption. reflexivity.
+Qed.
+
+Lemma raw_no_quote : forall q r, raw_ok q r = true ->
+  forallb (fun x => negb ((x =? q)%Z || (x =? 92)%Z)) r = true.
+Proof.
+  intros q r H. unfold raw_ok in H. bsplit. eapply forallb_imp; [|eassumption].
+  intros x Hx. unfold raw_byte_ok in Hx. apply andb_prop in Hx. destruct Hx as [Hx _].
+  apply andb_prop in Hx. destruct Hx as [Ha Hb]. apply negb_true_iff in Ha, Hb. rewrite Ha, Hb. reflexivity.
+Qed.
+
+Lemma raw_no_nl : forall q r, raw_ok q r = true ->
+  forallb (fun x => negb ((x =? 10)%Z || (x =? 13)%Z)) r = true.
+Proof.
+  intros q r H. unfold raw_ok in H. bsplit. eapply forallb_imp; [|eassumption].
+  intros x Hx. unfold raw_byte_ok in Hx. apply andb_prop in Hx. destruct Hx as [_ Hx]. exact Hx.
+Qed.
+
+Lemma raw_bhead : forall q r x, raw_ok q r = true -> bhead x -> bhead (r ++ x).
+Proof.
+  intros q [|b r] x H Hx; [exact Hx|]. unfold raw_ok in H. bsplit. cbn [app bhead].
+  apply negb_true_iff. assumption.
+Qed.
+
+(* the slice that scan_string copies in front of an escape or the closing quote *)
+Lemma string_segment : forall pre r x,
+  bhead (r ++ x) -> bhead x ->
+  (if length pre <? length pre + length r
+   then slice (pre ++ r ++ x) (length pre) (length pre + length r) else Some []) = Some r.
+Proof.
+  intros pre r x H1 H2. destruct r as [|b r].
+  - cbn [length]. rewrite Nat.add_0_r, Nat.ltb_irrefl. reflexivity.
+  - replace (length pre <? length pre + length (b :: r)) with true
+      by (symmetry; apply Nat.ltb_lt; cbn [length]; lia).
+    apply slice_mid; assumption.
+Qed.
+
+Lemma segs_text_length : forall segs, length segs <= length (segs_text segs).
+Proof.
+  induction segs as [|[r e] segs IH]; cbn [segs_text length]; [lia|]. rewrite app_length. cbn [length]. lia.
+Qed.
+
+Lemma ssl_tail : forall segs fuel v pre start beg q buf last post,
+  buf <> [] -> length segs < fuel ->
+  (q =? 92)%Z = false -> is_cont q = false ->
+  forallb (fun re => raw_ok q (fst re) && is_some (escape_lookup q (snd re))) segs = true ->
+  raw_ok q last = true ->
+  scan_string_loop fuel v (pre ++ segs_text segs ++ last ++ q :: post) start beg q
+    {| c_rest := segs_text segs ++ last ++ q :: post; c_pos := length pre |} true buf =
+  Ok (TString, buf ++ segs_payload q segs ++ last, true,
+      {| c_rest := post; c_pos := length pre + length (segs_text segs ++ last ++ [q]) |}, []).
+Proof.
+  induction segs as [|[r e] segs IH]; intros fuel v pre start beg q buf last post Hbuf Hfuel Hq92 Hqc Hsegs Hlast;
+    (destruct fuel as [|fuel]; [lia|]).
+  - cbn [segs_text segs_payload app]. cbn [scan_string_loop]. cbn [c_rest c_pos].
+    rewrite (memchr2_skip q 92) by (apply raw_no_quote; assumption).
+    rewrite (memchr2_hit q 92) by (rewrite Z.eqb_refl; reflexivity).
+    rewrite (memchr2_skip 10 13) by (eapply raw_no_nl; eassumption).
+    replace (length last + memchr2 10 13 (q :: post) <? length last + 0) with false
+      by (symmetry; apply Nat.ltb_ge; lia).
+    replace (length last + 0 =? length (last ++ q :: post)) with false
+      by (symmetry; apply Nat.eqb_neq; rewrite app_length; cbn [length]; lia).
+    rewrite Nat.add_0_r.
+    replace (skipn (length last) (last ++ q :: post)) with (q :: post)
+      by (rewrite skipn_app, skipn_all, Nat.sub_diag; reflexivity).
+    rewrite Z.eqb_refl.
+    rewrite string_segment; [| eapply raw_bhead; [eassumption|exact Hqc] | exact Hqc].
+    replace (length pre + length (last ++ [q])) with (S (length pre + length last))
+      by (rewrite app_length; cbn [length]; lia).
+    reflexivity.
+  - cbn [forallb fst snd] in Hsegs. bsplit. rename H into Hr, H1 into He, H0 into Hsegs.
+    destruct (escape_lookup q e) as [pushed|] eqn:Ee; [|discriminate].
+    cbn [segs_text segs_payload]. rewrite <- !app_assoc. cbn [app].
+    cbn [scan_string_loop]. cbn [c_rest c_pos].
+    rewrite (memchr2_skip q 92) by (apply raw_no_quote; assumption).
+    rewrite (memchr2_hit q 92) by (rewrite Z.eqb_refl; apply orb_true_r).
+    rewrite (memchr2_skip 10 13) by (eapply raw_no_nl; eassumption).
+    set (rest := segs_text segs ++ last ++ q :: post).
+    replace (length r + memchr2 10 13 (92%Z :: e :: rest) <? length r + 0) with false
+      by (symmetry; apply Nat.ltb_ge; lia).
+    replace (length r + 0 =? length (r ++ 92%Z :: e :: rest)) with false
+      by (symmetry; apply Nat.eqb_neq; rewrite app_length; cbn [length]; lia).
+    rewrite Nat.add_0_r.
+    replace (skipn (length r) (r ++ 92%Z :: e :: rest)) with (92%Z :: e :: rest)
+      by (rewrite skipn_app, skipn_all, Nat.sub_diag; reflexivity).
+    replace ((92 =? q)%Z) with false by (symmetry; rewrite Z.eqb_sym; exact Hq92).
+    change ((92 =? 92)%Z) with true. cbv iota.
+    rewrite string_segment; [| eapply raw_bhead; [eassumption|reflexivity] | reflexivity].
+    destruct buf as [|b0 buf]; [contradiction Hbuf; reflexivity|].
+    rewrite Ee.
+    replace (pre ++ r ++ 92%Z :: e :: rest) with ((pre ++ r ++ [92%Z; e]) ++ rest)
+      by (rewrite <- !app_assoc; reflexivity).
+    replace (length pre + length r + 2) with (length (pre ++ r ++ [92%Z; e]))
+      by (rewrite !app_length; cbn [length]; lia).
+    unfold rest. rewrite IH; try assumption.
+    + unfold esc_value. rewrite Ee.
+      replace ((((b0 :: buf) ++ r) ++ [pushed]) ++ segs_payload q segs ++ last)
+        with ((b0 :: buf) ++ r ++ pushed :: segs_payload q segs ++ last)
+        by (rewrite <- !app_assoc; reflexivity).
+      replace (length (pre ++ r ++ [92%Z; e]) + length (segs_text segs ++ last ++ [q]))
+        with (length pre + length (r ++ 92%Z :: e :: segs_text segs ++ last ++ [q]))
+        by (rewrite !app_length; cbn [length]; rewrite !app_length; cbn [length]; lia).
+      reflexivity.
+    + destruct ((b0 :: buf) ++ r); discriminate.
+    + cbn [length] in Hfuel. lia.
+Qed.
+
+Lemma nt_string : forall f v pre q segs last follow,
+  tk_ok (KString q segs last) = true ->
+  next_token (S f) v (pre ++ (q :: segs_text segs ++ last ++ [q]) ++ follow)
+    {| c_rest := (q :: segs_text segs ++ last ++ [q]) ++ follow; c_pos := length pre |} =
+  expect TString (segs_payload q segs ++ last) (match segs with [] => false | _ :: _ => true end)
+    (length pre) (length (q :: segs_text segs ++ last ++ [q])) follow.
+Proof.
+  intros f v pre q segs last follow Hok. cbn [tk_ok] in Hok. bsplit.
+  rename H into Hs, H3 into Hq, H2 into Hq92, H1 into Hsegs, H0 into Hlast.
+  unfold start_byte_ok in Hs. bsplit. apply negb_true_iff in H, H1, H0, Hq92.
+  cbn [app]. rewrite nt_dispatch by assumption. cbv zeta. rewrite H1, Hq.
+  unfold expect, finish. unfold scan_string, adv1. cbn [c_rest c_pos tl].
+  rewrite <- !app_assoc. cbn [app].
+  destruct segs as [|[r e] segs].
+  - (* no escape: the payload is the slice between the quotes *)
+    cbn [segs_text app]. cbn [scan_string_loop]. cbn [c_rest c_pos].
+    rewrite (memchr2_skip q 92) by (apply raw_no_quote; assumption).
+    rewrite (memchr2_hit q 92) by (rewrite Z.eqb_refl; reflexivity).
+    rewrite (memchr2_skip 10 13) by (eapply raw_no_nl; eassumption).
+    replace (length last + memchr2 10 13 (q :: follow) <? length last + 0) with false
+      by (symmetry; apply Nat.ltb_ge; lia).
+    replace (length last + 0 =? length (last ++ q :: follow)) with false
+      by (symmetry; apply Nat.eqb_neq; rewrite app_length; cbn [length]; lia).
+    rewrite Nat.add_0_r.
+    replace (skipn (length last) (last ++ q :: follow)) with (q :: follow)
+      by (rewrite skipn_app, skipn_all, Nat.sub_diag; reflexivity).
+    rewrite Z.eqb_refl.
+    replace (pre ++ q :: last ++ q :: follow) with ((pre ++ [q]) ++ last ++ q :: follow)
+      by (rewrite <- app_assoc; reflexivity).
+    replace (S (length pre)) with (length (pre ++ [q])) by (rewrite app_length; cbn [length]; lia).
+    rewrite slice_mid; [| eapply raw_bhead; [eassumption|exact H0] | exact H0].
+    unfold mk_token. cbn [c_pos segs_payload app].
+    replace (S (length (pre ++ [q]) + length last)) with (length pre + length (q :: last ++ [q]))
+      by (cbn [length]; rewrite !app_length; cbn [length]; lia).
+    reflexivity.
+  - (* first escape: the buffer is filled from the opening quote, then ssl_tail *)
+    cbn [forallb fst snd] in Hsegs. bsplit. rename H2 into Hr, H4 into He, H3 into Hsegs.
+    destruct (escape_lookup q e) as [pushed|] eqn:Ee; [|discriminate].
+    cbn [segs_text segs_payload]. rewrite <- !app_assoc. cbn [app].
+    cbn [scan_string_loop]. cbn [c_rest c_pos].
+    rewrite (memchr2_skip q 92) by (apply raw_no_quote; assumption).
+    rewrite (memchr2_hit q 92) by (rewrite Z.eqb_refl; apply orb_true_r).
+    rewrite (memchr2_skip 10 13) by (eapply raw_no_nl; eassumption).
+    set (rest := segs_text segs ++ last ++ q :: follow).
+    replace (length r + memchr2 10 13 (92%Z :: e :: rest) <? length r + 0) with false
+      by (symmetry; apply Nat.ltb_ge; lia).
+    replace (length r + 0 =? length (r ++ 92%Z :: e :: rest)) with false
+      by (symmetry; apply Nat.eqb_neq; rewrite app_length; cbn [length]; lia).
+    rewrite Nat.add_0_r.
+    replace (skipn (length r) (r ++ 92%Z :: e :: rest)) with (92%Z :: e :: rest)
+      by (rewrite skipn_app, skipn_all, Nat.sub_diag; reflexivity).
+    replace ((92 =? q)%Z) with false by (symmetry; rewrite Z.eqb_sym; exact Hq92).
+    change ((92 =? 92)%Z) with true. cbv iota.
+    replace (pre ++ q :: r ++ 92%Z :: e :: rest) with ((pre ++ [q]) ++ r ++ 92%Z :: e :: rest)
+      by (rewrite <- app_assoc; reflexivity).
+    replace (S (length pre)) with (length (pre ++ [q])) by (rewrite app_length; cbn [length]; lia).
+    rewrite slice_mid; [| eapply raw_bhead; [eassumption|reflexivity] | reflexivity].
+    rewrite Ee. cbn [app].
+    replace ((pre ++ [q]) ++ r ++ 92%Z :: e :: rest) with ((pre ++ q :: r ++ [92%Z; e]) ++ rest)
+      by (rewrite <- !app_assoc; cbn [app]; rewrite <- !app_assoc; reflexivity).
+    replace (length (pre ++ [q]) + length r + 2) with (length (pre ++ q :: r ++ [92%Z; e]))
+      by (rewrite !app_length; cbn [length]; rewrite !app_length; cbn [length]; lia).
+    unfold rest. rewrite ssl_tail; try assumption.
+    + unfold mk_token. cbn [c_pos]. unfold esc_value. rewrite Ee.
+      replace ((r ++ [pushed]) ++ segs_payload q segs ++ last) with (r ++ pushed :: segs_payload q segs ++ last)
+        by (rewrite <- !app_assoc; reflexivity).
+      replace (length (pre ++ q :: r ++ [92%Z; e]) + length (segs_text segs ++ last ++ [q]))
+        with (length pre + length (q :: r ++ 92%Z :: e :: segs_text segs ++ last ++ [q]))
+        by (cbn [length]; rewrite !app_length; cbn [length]; rewrite !app_length; cbn [length]; lia).
+      reflexivity.
+    + destruct r; discriminate.
+    + pose proof (segs_text_length segs). rewrite !app_length. cbn [length]. rewrite !app_length. lia.
+Qed.
+
+(* ------------------------------------------------------------------ any token *)
+
+Definition right_ok (t : tk) (follow : bytes) : Prop :=
+  match t with
+  | KKw _ => stops_word follow
+  | KIdent _ => stops_word follow /\ guard t follow = true
+  | KMulti _ => match follow with b :: _ => is_alpha_us b = false | [] => True end
+  | KNumber _ None => stops_word follow /\ match follow with b :: _ => (b =? 46)%Z = false | [] => True end
+  | KNumber _ (Some _) => stops_word follow
+  | KPunct _ | KString _ _ _ => True
+  end.
+
+Definition expect_tk (t : tk) (p n : nat) (follow : bytes) :=
+  expect (fst (fst (tk_tok t))) (snd (fst (tk_tok t))) (snd (tk_tok t)) p n follow.
+
+Lemma nt_tk : forall f v pre t inner follow,
+  tk_ok t = true -> inner_ok t inner = true -> right_ok t follow ->
+  next_token (S f) v (pre ++ tk_text t inner ++ follow)
+    {| c_rest := tk_text t inner ++ follow; c_pos := length pre |} =
+  expect_tk t (length pre) (length (tk_text t inner)) follow.
+Proof.
+  intros f v pre t inner follow Hok Hin Hr. unfold expect_tk.
+  destruct t as [k|k|w|i fr|k|q segs last]; cbn [tk_text tk_tok fst snd right_ok] in *.
+  - destruct (kw_word k) as [w|] eqn:Ek; [|cbn [tk_ok] in Hok; rewrite Ek in Hok; discriminate].
+    apply nt_kw; assumption.
+  - destruct (multi_find k multi_table) as [[w words]|] eqn:Em; [|cbn [tk_ok] in Hok; rewrite Em in Hok; discriminate].
+    apply nt_multi; assumption.
+  - destruct Hr as [Hs Hg]. cbn [tk_ok] in Hok. bsplit. unfold guard in Hg.
+    destruct (assoc_bytes w multi_table) as [alts|] eqn:Em.
+    + eapply nt_ident_multi; eassumption.
+    + apply nt_ident_plain; try assumption. destruct (assoc_bytes w keyword_table); [discriminate|reflexivity].
+  - destruct fr as [d|].
+    + apply nt_number; [assumption|assumption|discriminate].
+    + destruct Hr as [Hs Hd]. apply nt_number; [assumption|assumption|intros _; exact Hd].
+  - cbn [tk_ok] in Hok. destruct (punct_byte k) as [b|] eqn:Ep; [|discriminate]. bsplit.
+    destruct (assoc_z b punct_table) as [k'|] eqn:Ea; [|discriminate]. apply tok_eqb_eq in H0. subst k'.
+    cbn [app length]. apply nt_punct; [assumption| apply negb_true_iff; assumption | assumption].
+  - apply nt_string. assumption.
+Qed.
+
+(* every token text begins with a byte that is not whitespace, `#` or a continuation byte *)
+Lemma tk_text_head : forall t inner, tk_ok t = true ->
+  exists h r, tk_text t inner = h :: r /\ start_byte_ok h = true.
+Proof.
+  intros t inner Hok.
+  assert (Hword : forall w x, word_ok w = true -> exists h r, w ++ x = h :: r /\ start_byte_ok h = true).
+  { intros w x Hw. destruct (word_ok_inv _ Hw) as (b & t' & -> & Hb & _). exists b, (t' ++ x).
+    split; [reflexivity|]. destruct (alpha_dispatch _ Hb) as (H1 & H2 & _ & _ & _ & H6).
+    unfold start_byte_ok. rewrite H1, H2, H6. reflexivity. }
+  destruct t as [k|k|w|i fr|k|q segs last]; cbn [tk_text tk_ok] in *.
+  - destruct (kw_word k) as [w|]; [|discriminate]. bsplit.
+    destruct (Hword w [] H) as (h & r & E & Hh). rewrite app_nil_r in E. eauto.
+  - destruct (multi_find k multi_table) as [[w words]|]; [|discriminate]. bsplit. apply Hword. assumption.
+  - bsplit. destruct (Hword w [] H) as (h & r & E & Hh). rewrite app_nil_r in E. eauto.
+  - bsplit. destruct (digits_ok_inv _ H) as (b & t' & -> & Hb & _).
+    destruct (digit_dispatch _ Hb) as (H1 & H2 & _ & _ & H5).
+    exists b. destruct fr; cbn [number_text app]; eexists; (split; [reflexivity|]);
+      unfold start_byte_ok; rewrite H1, H2, H5; reflexivity.
+  - destruct (punct_byte k) as [b|]; [|discriminate]. bsplit. eauto.
+  - bsplit. eauto.
+Qed.
+
+Lemma tk_not_eof : forall t, tk_ok t = true -> tok_eqb (fst (fst (tk_tok t))) TEOF = false.
+Proof.
+  intros t H. destruct t as [k|k|w|i fr|k|q segs last]; cbn [tk_tok fst snd]; try reflexivity;
+    destruct k; try reflexivity; vm_compute in H; discriminate H.
+Qed.
+
+(* ------------------------------------------------------------------ from [separating] to the right boundary *)
+
+Lemma start_byte_bhead : forall h r, start_byte_ok h = true -> bhead (h :: r).
+Proof. intros h r H. unfold start_byte_ok in H. bsplit. cbn [bhead]. apply negb_true_iff. assumption. Qed.
+
+Lemma sep_text_head : forall e sp x, sep_elem_ok e = true ->
+  exists h r, sep_text (e :: sp) ++ x = h :: r /\ (is_ws h = true \/ h = 35%Z).
+Proof.
+  intros [b|body nl] sp x H; cbn [sep_text sep_elem_text sep_elem_ok app] in *.
+  - eauto.
+  - exists 35%Z. eexists. split; [rewrite <- app_assoc; cbn [app]; reflexivity|]. right. reflexivity.
+Qed.
+
+Lemma ws_or_hash_props : forall h, (is_ws h = true \/ h = 35%Z) ->
+  is_word_byte h = false /\ is_cont h = false /\ (h =? 46)%Z = false /\ is_alpha_us h = false.
+Proof.
+  intros h [H| ->].
+  - destruct (ws_not_word _ H) as (A & B & C & D & _). auto.
+  - repeat split; reflexivity.
+Qed.
+
+Lemma gap_right_ok : forall t after rest,
+  forallb sep_elem_ok after = true -> bhead rest -> gap_ok t after rest = true ->
+  right_ok t (sep_text after ++ rest).
+Proof.
+  intros t after rest Hsep Hb Hg. unfold gap_ok in Hg. apply andb_prop in Hg. destruct Hg as [Hfuse Hguard].
+  assert (Hstop : (match after with [] => match rest with h :: _ => fuses t h = false | [] => True end | _ => True end)).
+  { destruct after; [|exact I]. destruct rest; [exact I|]. apply negb_true_iff. exact Hfuse. }
+  clear Hfuse.
+  destruct after as [|e after].
+  - cbn [sep_text app] in *. destruct rest as [|h rest].
+    + destruct t as [k|k|w|i fr|k|q segs last]; cbn [right_ok stops_word]; auto. destruct fr; cbn; auto.
+    + cbn [bhead] in Hb.
+      destruct t as [k|k|w|i fr|k|q segs last]; cbn [right_ok stops_word fuses] in *; auto.
+      destruct fr; [auto|]. apply orb_false_iff in Hstop. destruct Hstop. auto.
+  - cbn [forallb] in Hsep. bsplit.
+    destruct (sep_text_head e after rest H) as (h & r & E & Hh). rewrite E in *.
+    destruct (ws_or_hash_props _ Hh) as (A & B & C & D).
+    destruct t as [k|k|w|i fr|k|q segs last]; cbn [right_ok stops_word]; auto. destruct fr; auto.
+Qed.
+
+Lemma render_slots_bhead : forall ts sls x,
+  forallb tk_ok ts = true -> bhead x -> bhead (render_slots ts sls ++ x).
+Proof.
+  intros [|t ts] sls x Hok Hx; [exact Hx|]. destruct sls as [|sl sls]; [exact Hx|].
+  cbn [forallb] in Hok. bsplit. cbn [render_slots].
+  destruct (tk_text_head t (s_inner sl) H) as (h & r & E & Hh). rewrite E. cbn [app].
+  eapply start_byte_bhead. eassumption.
+Qed.
+
+(* ------------------------------------------------------------------ the token stream *)
+
+Definition tail_ok (tail : option bytes) : bool :=
+  match tail with Some body => forallb (fun b => negb (is_nl b)) body | None => true end.
+
+Lemma tail_bhead : forall tail, bhead (tail_text tail).
+Proof. intros [body|]; cbn [tail_text bhead]; [reflexivity|exact I]. Qed.
+
+Lemma nt_tail : forall f v s tail p, tail_ok tail = true ->
+  next_token (S (length (tail_text tail) + f)) v s {| c_rest := tail_text tail; c_pos := p |} =
+  Ok ({| t_kind := TEOF; t_payload := []; t_owned := false;
+         t_start := p + length (tail_text tail); t_end := p + length (tail_text tail) |},
+      {| c_rest := []; c_pos := p + length (tail_text tail) |}, []).
+Proof.
+  intros f v s [body|] p H; cbn [tail_text tail_ok] in *.
+  - cbn [length]. change (S (S (length body) + f)) with (S (S (length body + f))).
+    rewrite nt_dispatch by reflexivity. cbv zeta. change ((35 =? 35)%Z) with true. cbv iota.
+    rewrite skip_comment_eof by assumption. apply nt_eof.
+  - cbn [length]. rewrite Nat.add_0_r. apply nt_eof.
+Qed.
+
+Lemma lex_loop_render : forall ts sls sp pre fuel v tail,
+  forallb tk_ok ts = true -> slots_ok ts sls = true -> forallb sep_elem_ok sp = true ->
+  tail_ok tail = true -> separating_slots ts sls (tail_text tail) = true ->
+  length ts < fuel ->
+  exists toks,
+    lex_loop fuel v (pre ++ sep_text sp ++ render_slots ts sls ++ tail_text tail)
+      {| c_rest := sep_text sp ++ render_slots ts sls ++ tail_text tail; c_pos := length pre |} =
+    Ok (toks, [], length (pre ++ sep_text sp ++ render_slots ts sls ++ tail_text tail)) /\
+    map kpo toks = map tk_tok ts.
+Proof.
+  induction ts as [|t ts IH]; intros sls sp pre fuel v tail Hok Hsl Hsp Htail Hsep Hfuel;
+    (destruct fuel as [|fuel]; [lia|]).
+  - exists []. split; [|reflexivity]. cbn [render_slots app]. cbn [lex_loop]. unfold token_fuel. cbn [c_rest].
+    pose proof (n_comments_le sp) as Hn.
+    replace (S (length (sep_text sp ++ tail_text tail)))
+      with (S (n_comments sp + (length (tail_text tail) + (length (sep_text sp) - n_comments sp))))
+      by (rewrite app_length; lia).
+    rewrite nt_skip_sep by assumption.
+    rewrite nt_tail by assumption.
+    cbn [is_eof t_kind c_pos]. change (tok_eqb TEOF TEOF) with true. cbn [andb].
+    replace (length (pre ++ sep_text sp ++ tail_text tail) <=? length pre + length (sep_text sp) + length (tail_text tail))
+      with true by (symmetry; apply Nat.leb_le; rewrite !app_length; lia).
+    f_equal. f_equal. rewrite !app_length. lia.
+  - destruct sls as [|sl sls]; [discriminate Hsl|].
+    cbn [forallb] in Hok. cbn [slots_ok] in Hsl. cbn [separating_slots] in Hsep. bsplit.
+    rename H4 into Htk, H0 into Hoks, H3 into Hinner, H5 into Hafter, H2 into Hsls, H into Hgap, H1 into Hseps.
+    cbn [render_slots].
+    set (follow := sep_text (s_after sl) ++ render_slots ts sls ++ tail_text tail).
+    set (txt := tk_text t (s_inner sl)).
+    assert (Hright : right_ok t follow).
+    { unfold follow. apply gap_right_ok; try assumption.
+      apply render_slots_bhead; [assumption|apply tail_bhead]. }
+    replace (txt ++ sep_text (s_after sl) ++ render_slots ts sls ++ tail_text tail) with (txt ++ follow) by reflexivity.
+    cbn [lex_loop]. unfold token_fuel. cbn [c_rest].
+    pose proof (n_comments_le sp) as Hn.
+    replace (S (length (sep_text sp ++ txt ++ follow)))
+      with (S (n_comments sp + (length (sep_text sp ++ txt ++ follow) - n_comments sp)))
+      by (rewrite app_length; lia).
+    rewrite nt_skip_sep by assumption.
+    replace (pre ++ sep_text sp ++ txt ++ follow) with ((pre ++ sep_text sp) ++ txt ++ follow)
+      by (rewrite <- app_assoc; reflexivity).
+    replace (length pre + length (sep_text sp)) with (length (pre ++ sep_text sp)) by (rewrite app_length; reflexivity).
+    unfold txt. rewrite nt_tk by assumption. fold txt.
+    unfold expect_tk, expect. cbn [is_eof t_kind]. rewrite tk_not_eof by assumption. cbn [andb].
+    destruct (IH sls (s_after sl) ((pre ++ sep_text sp) ++ txt) fuel v tail) as (toks & Hl & Hm); try assumption; [lia|].
+    fold follow in Hl.
+    replace (length (pre ++ sep_text sp) + length txt) with (length ((pre ++ sep_text sp) ++ txt))
+      by (rewrite (app_length (pre ++ sep_text sp) txt); reflexivity).
+    replace ((pre ++ sep_text sp) ++ txt ++ follow) with (((pre ++ sep_text sp) ++ txt) ++ follow)
+      by (rewrite <- (app_assoc (pre ++ sep_text sp) txt follow); reflexivity).
+    rewrite Hl. eexists. split; [reflexivity|].
+    cbn [map]. rewrite Hm. f_equal. unfold kpo. cbn [t_kind t_payload t_owned].
+    destruct (tk_tok t) as [[k p] o]. reflexivity.
+Qed.
+
+(* ------------------------------------------------------------------ the theorem *)
+
+Theorem lex_render : forall v ts l,
+  forallb tk_ok ts = true -> wf_layout ts l = true -> separating ts l = true ->
+  lex_view v (render ts l) = Some (map tk_tok ts).
+Proof.
+  intros v ts l Hok Hwf Hsep. unfold wf_layout in Hwf. bsplit.
+  destruct (lex_loop_render ts (l_slots l) (l_lead l) [] (S (length (render ts l))) v (l_tail l))
+    as (toks & Hl & Hm); try assumption.
+  - assert (Hlen : forall ts sls, slots_ok ts sls = true -> length ts <= length (render_slots ts sls)).
+    { clear. induction ts as [|t ts IH]; intros [|sl sls] H; cbn [slots_ok] in H; try discriminate; cbn [length render_slots]; [lia|].
+      bsplit. specialize (IH _ H0). rewrite !app_length.
+      assert (1 <= length (tk_text t (s_inner sl))); [|lia].
+      admit. }
+    admit.
+  - unfold lex_view, lex, start_cursor, render. cbn [app length] in Hl. unfold render in Hl.
+    rewrite Hl. rewrite Hm. reflexivity.
+Admitted.
